@@ -73,6 +73,12 @@ pub enum P {
     ElemU64,
     ElemStr,
     ListIdx,
+    /// length of a list the script builds itself (element-type dimension):
+    /// by pushes {0, 1, 2, 4, 5} / by a list literal {0, 1, 2}
+    ListLen,
+    ListLen3,
+    /// an integer parameter the script does not use (one dummy value)
+    UnusedInt,
 }
 
 pub enum Ref {
@@ -1152,4 +1158,123 @@ fn list_ops(b: &mut B) {
         None,
         None,
     );
+    list_elem_ops(b);
+}
+
+/// An element type of the element-type dimension of the List built-ins.
+pub struct Elem {
+    pub name: &'static str,
+    /// type annotation, where the type can be written down
+    pub ty: Option<&'static str>,
+    /// top-level declarations the script needs
+    pub prelude: &'static str,
+    /// three element expressions (the second one is the searched item)
+    pub e: [&'static str; 3],
+}
+
+/// u8, u64, String, the unit type, a zero-sized and a 24-byte registered
+/// type, an optional, a nested list, an anonymous record, and zero-sized
+/// records (anonymous with a unit field, named without fields).
+pub const ELEMS: &[Elem] = &[
+    Elem { name: "u8", ty: Some("u8"), prelude: "", e: ["1", "2", "255"] },
+    Elem { name: "u64", ty: Some("u64"), prelude: "", e: ["1", "2", "9223372036854775807"] },
+    Elem { name: "String", ty: Some("String"), prelude: "", e: ["\"a\"", "\"é\"", "\"\""] },
+    Elem { name: "()", ty: Some("()"), prelude: "", e: ["()", "()", "()"] },
+    Elem { name: "Z (zero-sized registered type)", ty: Some("Z"), prelude: "", e: ["mkz()", "mkz()", "mkz()"] },
+    Elem { name: "Tr (24-byte registered type)", ty: Some("Tr"), prelude: "", e: ["mk(1)", "mk(2)", "mk(3)"] },
+    Elem { name: "Option[u32]", ty: Some("u32?"), prelude: "", e: ["Some(1)", "None", "Some(4294967295)"] },
+    Elem { name: "List[u8]", ty: Some("List[u8]"), prelude: "", e: ["[1, 2]", "[]", "[3]"] },
+    Elem {
+        name: "anonymous record",
+        ty: None,
+        prelude: "",
+        e: ["{ a: 1, b: true }", "{ a: 2, b: false }", "{ a: 1, b: false }"],
+    },
+    Elem {
+        name: "anonymous record with only a unit field",
+        ty: None,
+        prelude: "",
+        e: ["{ u: () }", "{ u: () }", "{ u: () }"],
+    },
+    Elem {
+        name: "named record",
+        ty: Some("R"),
+        prelude: "record R { a: u8, s: String }\n",
+        e: ["R { a: 1, s: \"a\" }", "R { a: 2, s: \"é\" }", "R { a: 1, s: \"\" }"],
+    },
+    Elem { name: "named record without fields", ty: Some("E"), prelude: "record E {}\n", e: ["E {}", "E {}", "E {}"] },
+];
+
+/// The List built-ins with the ELEMENT TYPE as an extra dimension. The
+/// scripts build their list themselves (length n in {0, 1, 2, 4, 5}) and
+/// reduce the result to a u64, so that one Rust signature serves every
+/// element type, including those that cannot cross the host boundary.
+fn list_elem_ops(b: &mut B) {
+    const NEW: &str = "method List.new() -> List[T]";
+    const PUSH: &str = "method List.push(self: List[T], elem: T)";
+    // (built-in, form, extra covered signature, uses i, uses j, body)
+    let bodies: &[(&str, &str, &str, bool, bool, &str)] = &[
+        ("List.len", "method", "method List.len(self: List[T]) -> u64", false, false, "l.len()"),
+        ("List.capacity", "method", "method List.capacity(self: List[T]) -> u64", false, false, "l.capacity()"),
+        ("List.is_empty", "method", "method List.is_empty(self: List[T]) -> bool", false, false,
+            "if l.is_empty() { 1 } else { 0 }"),
+        ("List.push", "method", PUSH, false, false, "l.push(E1);\n    l.len()"),
+        ("List.contains", "method", "method List.contains(self: List[T], item: T) -> bool", false, false,
+            "let a = if l.contains(E1) { 1 } else { 0 };\n    let b = if l.contains(E2) { 2 } else { 0 };\n    a + b"),
+        ("List.index", "method", "method List.index(self: List[T], item: T) -> Option[u64]", false, false,
+            "let a = match l.index(E1) {\n        Some(k) => k + 1,\n        None => 0,\n    };\n    let b = match l.index(E2) {\n        Some(k) => k + 1,\n        None => 0,\n    };\n    a * 8 + b"),
+        ("List.get", "method", "method List.get(self: List[T], idx: u64) -> Option[T]", true, false,
+            "match l.get(i) {\n        Some(x) => 1,\n        None => 0,\n    }"),
+        ("List.swap", "method", "method List.swap(self: List[T], i: u64, j: u64)", true, true, "l.swap(i, j);\n    l.len()"),
+        ("List.concat", "method", "method List.concat(self: List[T], other: List[T]) -> List[T]", false, false,
+            "let k = List.new();\n    k.push(E2);\n    let m = l.concat(k).concat(l);\n    m.len()"),
+        ("List.concat", "operator +", "method List.concat(self: List[T], other: List[T]) -> List[T]", false, false,
+            "let k = [E2];\n    let m = l + k + l;\n    m.len()"),
+        ("List.eq", "operator == / !=", "", false, false,
+            "let k = List.new();\n    let m = l.concat(k);\n    let a = if l == m { 1 } else { 0 };\n    let b = if l != k { 2 } else { 0 };\n    let c = if l == l { 4 } else { 0 };\n    a + b + c"),
+        ("List.for", "for loop", "", false, false,
+            "let c = 0;\n    for x in l {\n        c = c + 1;\n    }\n    c"),
+    ];
+    for el in ELEMS {
+        let ann = el.ty.map(|t| format!(": List[{t}]")).unwrap_or_default();
+        for (name, form, sig, use_i, use_j, body) in bodies {
+            for literal in [false, true] {
+                // the list literal construction only for the searching built-ins
+                if literal && !["List.contains", "List.index", "List.len"].contains(name) {
+                    continue;
+                }
+                let build = if literal {
+                    format!(
+                        "    let l{ann} = if n == 0 {{\n        []\n    }} else if n == 1 {{\n        [{e0}]\n    }} else {{\n        [{e0}, {e1}]\n    }};\n",
+                        e0 = el.e[0], e1 = el.e[1]
+                    )
+                } else {
+                    format!(
+                        "    let l{ann} = List.new();\n    if n >= 1 {{ l.push({e0}); }}\n    if n >= 2 {{ l.push({e1}); }}\n    if n >= 4 {{ l.push({e2}); l.push({e0}); }}\n    if n >= 5 {{ l.push({e1}); }}\n",
+                        e0 = el.e[0], e1 = el.e[1], e2 = el.e[2]
+                    )
+                };
+                let body = body.replace("E1", el.e[1]).replace("E2", el.e[2]);
+                let script = format!("{}fn f(n: u64, i: u64, j: u64) -> u64 {{\n{build}    {body}\n}}", el.prelude);
+                let mut covers = vec![NEW, PUSH];
+                if !sig.is_empty() {
+                    covers.push(sig);
+                }
+                let params = [
+                    if literal { P::ListLen3 } else { P::ListLen },
+                    if *use_i { P::ListIdx } else { P::UnusedInt },
+                    if *use_j { P::ListIdx } else { P::UnusedInt },
+                ];
+                b.add::<fn(u64, u64, u64) -> u64>(
+                    name,
+                    &format!("{form}, {}, elem = {}", if literal { "list literal" } else { "list built in the script" }, el.name),
+                    &covers,
+                    &script,
+                    &params,
+                    None,
+                    None,
+                );
+            }
+        }
+    }
 }
